@@ -47,6 +47,15 @@ CHECKS = {
  "C14": dict(cat="fault_enumeration", tech="crash-point enumeration at flush boundaries over all programs of a bounded tree",
     text="Every program of a bounded family with a flush() inserted at every position (pairs in thorough) x 4 layer combos x levels {0,5,11} x 3 entropies is run on the real writer over a sink that records its length when flush returns; exactly those bytes are repaired (both modes when encrypted). Oracle: output sound and every file has at least the bytes appended before the flush (or, authenticated mode, at least what independent reference decoders extract from completed chunks).",
     note="Scaled constants; reference compressed stream for layers=both/authenticated comes from the compress-only run of the same program.", ref="3/C14"),
+ "C16": dict(cat="exploration", tech="exhaustive enumeration of member names from a path grammar x extraction forms x output-dir forms, sandbox snapshot diff around the real mlar binary",
+    text="All names c1/../ck (k<=3, thorough 4) over components {.., ., empty, two plain, unicode, 255 x n, 300 x n} with/without leading and trailing '/', packed by the library into archives (collision-free groups of benign names; small groups of dangerous / degenerate / unrepresentable names with a benign witness); the mlar binary built from the working tree extracts them (whole archive, --glob '*', a listed name, --glob exact name) with relative / absolute / trailing-slash / ./ output directory arguments, into an absent output tree or one holding a directory symlink that leaves it. A recursive snapshot (type, size, SHA-256, mtime) of the surrounding sandbox must show no file created, modified or removed outside the physical output directory (nor at the file system root); on exit 0 every selected benign member exists beneath it with its exact content.",
+    note="The property is about files: directories that mlar creates through a pre-existing symlink before its canonical-path check are counted in the evidence, not judged.", ref="3/C16"),
+ "C17": dict(cat="exploration", tech="exhaustive pipeline enumeration over generated trees x layer options x levels x key sets on the real mlar binary, cross-checked route by route",
+    text="6 generated file trees x {none, compress, encrypt, both, default} x levels x key sets: keygen, create (file list or directory recursion), then list, list -vv (size + SHA-256), cat of every file, extract (linear, --glob, one name; no extra files), to-tar (parsed with the tar crate), convert to each other layer/key choice and repair of the intact archive each followed by all readers, create|convert|repair chains, and negative runs (wrong key, missing key, key for an unencrypted archive) that must exit non-zero without output content. Scaled-constant binary for the grid; production-constant binary for trees with 128 KiB+-1 and 4 MiB+-1 files.",
+    note="Human-readable sizes formatted with the same humansize crate as the tool.", ref="3/C17"),
+ "C19": dict(cat="exploration", tech="exhaustive enumeration of seeds x parents x all path lists up to length 3 against an independent re-implementation of the README algorithm",
+    text="mlar keygen --seed for 7 seeds (empty, unicode, 4096 chars, the two pinned ones...) and mlar keyderive for 5 parent keys (seeded DER, Ed25519-form DER, PEM) x every path list of length 1..3 over {'', 'a', 'App X', unicode}: key files must equal the harness's own implementation (own ChaCha20 block, own HMAC/HKDF-SHA512, own DER/PEM writer), be reproducible, compositional (derive(p1,p2) = derive(p2) after derive(p1)), and public must match private. Frozen known answers guard the harness.",
+    note="Known finding: keyderive uses the unclamped stored parent secret while the README documents the clamped private key.", ref="3/C19"),
 }
 
 def main():
